@@ -5,16 +5,26 @@
   libstdc++-style `IStream`, printers' framing), whose constants and decision expressions are the
   regenerated `Alpaqa/Gen/C17.lean` and whose control skeleton is pinned by the `skel_*` theorems
   below.  `std::from_chars` / `std::to_chars` are oracles (`P`, `printNum`); their contract enters
-  as the hypothesis `TokOK` (a printed token is consumed entirely, with its value, when followed by
-  the separator or the end of the window).  Nothing here is about decimal ↔ binary conversion.
+  as hypotheses: `TokOK` (a printed token is consumed entirely, with its value, when followed by the
+  separator or the end of the window), `PBound` (the oracle never consumes more than it is given),
+  `P [] = none` (the empty range is not a number).  Nothing here is about decimal ↔ binary conversion.
 
   Canonical reader states: `shifted L j` / `streamOf L tail` describe the reader after it has
   consumed `j ≤ 64` characters of the window over a line whose unread part was `L` (any length —
   `L` may be millions of characters; the window holds `L.take 64`, the stream `L.drop 64 ++ tail`).
   All step theorems are stated from *every* such state, i.e. for every position of the chunk
-  boundaries relative to the tokens.
+  boundaries relative to the tokens; all row theorems are about the functions the driver runs
+  (`readRowImpl` = `read_row_impl`, `readRowStdVector` = `read_row_std_vector`) on
+  `rowStream cs L tail` = any number of comment lines, the line `L`, then `tail` (end of file, or a
+  newline and everything after it).
+
+  Row grammar of the library (unit-tested there: `csv.readEndWithSep`, `csv.readEndWithSepEOF`,
+  `csv.stdvecReadEndWithSep`, `csv.stdvecReadEndWithSepEOF`): a separator *terminates* a field, the
+  last field may or may not be terminated — `1,2,` is the row (1, 2) (`read_row_terminated`), not a
+  row with an empty third field.  Every other empty field (`,1,2`  `1,,2`  `1,2,,`  `,`) is rejected
+  (`row_empty_field_rejected`).
 -/
-import Alpaqa.Proofs.C17
+import Alpaqa.Proofs.C17Row
 
 namespace Alpaqa.Props.C17
 set_option linter.unusedSimpArgs false
@@ -41,11 +51,32 @@ theorem skel_read_single_ok : skel_read_single =
      "if {throw csv::read_row conversion failed '}", "return"] := by decide
 theorem skel_next_line_ok : skel_next_line = ["if {throw csv::read_row line not fully consumed}"] := by decide
 theorem skel_done_ok : skel_done = ["decl keep_reading", "return"] := by decide
-theorem skel_read_row_impl_ok : skel_read_row_impl =
-    ["decl reader", "call skip_comments", "while[RANGE_FOR] {vv = read}", "call next_line"] := by decide
-theorem skel_read_row_std_vector_ok : skel_read_row_std_vector =
-    ["decl reader", "decl v", "call skip_comments", "while[done] {call push_back,read}", "call next_line",
-     "return"] := by decide
+/-- `read_row_impl` has one of the two shapes the model knows: the plain body, or the body wrapped in
+    the error handler that calls `discard_line` (the translator checks the exact statements). -/
+theorem skel_read_row_impl_ok :
+    (rowImplResyncs = false ∧ skel_read_row_impl =
+      ["decl reader", "call skip_comments", "while[RANGE_FOR] {vv = read}", "call next_line"]) ∨
+    (rowImplResyncs = true ∧ skel_read_row_impl =
+      ["decl reader", "decl resync",
+       "if[TRY] {call skip_comments; while[RANGE_FOR] {vv = read}; call next_line} else " ++
+         "{if {call discard_line}; throw rethrow}"] ∧
+      skel_discard_line = ["bufidx =", "if {return}", "call is.clear", "call is.ignore"]) := by decide
+theorem skel_read_row_std_vector_ok :
+    (rowVecResyncs = false ∧ skel_read_row_std_vector =
+      ["decl reader", "decl v", "call skip_comments", "while[done] {call push_back,read}", "call next_line",
+       "return"]) ∨
+    (rowVecResyncs = true ∧ skel_read_row_std_vector =
+      ["decl reader", "decl v", "decl resync",
+       "if[TRY] {call skip_comments; while[done] {call push_back,read}; call next_line} else " ++
+         "{if {call discard_line}; throw rethrow}", "return"] ∧
+      skel_discard_line = ["bufidx =", "if {return}", "call is.clear", "call is.ignore"]) := by decide
+
+/-- **Which csv.tpp this is**: the row functions have no error handler (open finding
+    `csv-error-leaves-stream-mid-line`).  This statement, `read_row_frame_current` and
+    `read_vector_frame_current` are the three that change when the finding is fixed
+    (`= true`, and the `_resync` frame theorems become the current ones). -/
+theorem rows_current : rowImplResyncs = false ∧ rowVecResyncs = false := by decide
+
 theorem printer_literals_ok :
     csvDefaults = [",", "", "\n"] ∧ matlabEnd = ";\n" ∧ pythonEnd = "\n" ∧
     lits_print_csv_impl = [] ∧
@@ -55,11 +86,6 @@ theorem printer_literals_ok :
     defaultPrecision = "std::numeric_limits<F>::max_digits10" := by decide
 
 /-! ### Valid rows: chunk-boundary independence -/
-
-/-- the stream after a line has been read and its newline consumed -/
-def afterLine : List Char → IStream
-  | [] => ⟨[], true, true⟩
-  | _ :: t => ⟨t, false, false⟩
 
 /-- **One field, any chunk position.**  From every canonical state whose unread line starts with a
     token (< window) followed by the separator, `read` returns the token's value and leaves the
@@ -93,62 +119,63 @@ theorem read_row_tokens {V : Type} (P : List Char → Option (V × Nat)) (sep : 
     (hNL : NoNL (lineOf sep (tv.map (·.1))))
     (c : Char) (l : List Char) (hline : lineOf sep (tv.map (·.1)) = c :: l) (hc : c ≠ '#') :
     readRowImpl P tv.length sep ⟨commentText cs ++ (lineOf sep (tv.map (·.1)) ++ tail), false, false⟩ =
+      (.ok (tv.map (·.2)), afterLine tail) :=
+  readRowImplG_ok _ P _ sep _ _ _ (readRowCore_tokens P sep cs hcs tv tail ht hlen hok hNL c l hline hc)
+
+/-- **`read_row_std_vector` on a valid row** (same generality): all the values, in order, and the
+    stream at the start of the next line.  The model's recursion bound for the `while (!done)` loop is
+    shown sufficient (`readVecCore_prefix`), it is never what ends the loop. -/
+theorem read_vector_tokens {V : Type} (P : List Char → Option (V × Nat)) (sep : Char)
+    (cs : List (List Char)) (tv : List (List Char × V)) (tail : List Char)
+    (ctx : RowCtx cs (lineOf sep (tv.map (·.1))) tail)
+    (hlen : ∀ p ∈ tv, p.1.length ≤ 63) (hok : ∀ p ∈ tv, TokOK P sep p.1 p.2) (hne : ∀ p ∈ tv, p.1 ≠ []) :
+    readRowStdVector P sep (rowStream cs (lineOf sep (tv.map (·.1))) tail) =
       (.ok (tv.map (·.2)), afterLine tail) := by
-  have hF : cs.length + 1 ≤ (commentText cs ++ (lineOf sep (tv.map (·.1)) ++ tail)).length + 1 := by
-    have := commentText_length cs
-    simp only [List.length_append]; omega
-  obtain ⟨k', hk⟩ := comments_skipped (lineOf sep (tv.map (·.1)) ++ tail) cs true _ hF hcs
-  have hpos : ∃ f, (commentText cs ++ (lineOf sep (tv.map (·.1)) ++ tail)).length + 1 - cs.length = f + 1 := by
-    have := commentText_length cs
-    exact ⟨(commentText cs ++ (lineOf sep (tv.map (·.1)) ++ tail)).length - cs.length, by
-      simp only [List.length_append] at *; omega⟩
-  obtain ⟨f, hf⟩ := hpos
-  have h1 : skipComments {} ⟨commentText cs ++ (lineOf sep (tv.map (·.1)) ++ tail), false, false⟩ =
-      (.ok (), shifted (lineOf sep (tv.map (·.1))) 0, streamOf (lineOf sep (tv.map (·.1))) tail) := by
-    rw [skipComments_eq]
-    have hr0 : ({} : Reader) = ⟨[], 0, true⟩ := rfl
-    rw [hr0, hk, hf]
-    exact afterTest_data f k' _ tail c l hline hc hNL ht
-  have h2 := readFields_tokens P sep tv tail ht hlen hok (lineOf sep (tv.map (·.1))) 0 (by omega) hNL rfl
-  have h3 := nextLine_done tail ht
-  simp only [readRowImpl, h1, h2, h3]
-  cases tail <;> rfl
+  apply readRowStdVectorG_ok
+  rcases List.eq_nil_or_concat tv with rfl | ⟨tvi, pl, h⟩
+  · obtain ⟨c, l, h, _⟩ := ctx.hstart
+    simp [lineOf] at h
+  · rw [List.concat_eq_append] at h
+    subst h
+    have hl : lineOf sep ((tvi ++ [pl]).map (·.1)) = fieldsText sep (tvi.map (·.1)) ++ pl.1 := by
+      rw [List.map_append, List.map_cons, List.map_nil, lineOf_concat]
+    have := core_vec_last_ok P sep ctx tvi (fun p hp => hlen p (by simp [hp])) (fun p hp => hok p (by simp [hp]))
+      pl.1 hl pl.2 (hne pl (by simp)) (by have := hlen pl (by simp); omega) (hok pl (by simp))
+    simpa using this
+
+/-- **Separator-terminated rows** (`1,2,\n`; the library's tested row grammar): every field, the last
+    one included, is followed by the separator; `read_row(n)` with `n` = the number of fields and
+    `read_row_std_vector` return the values and leave the stream at the start of the next line. -/
+theorem read_row_terminated {V : Type} (P : List Char → Option (V × Nat)) (sep : Char)
+    (cs : List (List Char)) (tv : List (List Char × V)) (tail : List Char)
+    (ctx : RowCtx cs (fieldsText sep (tv.map (·.1))) tail)
+    (hlen : ∀ p ∈ tv, p.1.length ≤ 63) (hok : ∀ p ∈ tv, TokOK P sep p.1 p.2) :
+    readRowImpl P tv.length sep (rowStream cs (fieldsText sep (tv.map (·.1))) tail) =
+      (.ok (tv.map (·.2)), afterLine tail) ∧
+    readRowStdVector P sep (rowStream cs (fieldsText sep (tv.map (·.1))) tail) =
+      (.ok (tv.map (·.2)), afterLine tail) :=
+  ⟨readRowImplG_ok _ P _ sep _ _ _ (core_terminated_ok P sep ctx tv hlen hok [] (by simp) rfl),
+   readRowStdVectorG_ok _ P sep _ _ _ (core_vec_terminated_ok P sep ctx tv hlen hok [] (by simp) rfl)⟩
 
 /-- **The empty row** — also after any number of comment lines (the repaired `skip_comments`) — is
-    read as zero fields and its newline consumed. -/
+    read as zero fields and its newline consumed, by both readers. -/
 theorem read_row_empty {V : Type} (P : List Char → Option (V × Nat)) (sep : Char)
     (cs : List (List Char)) (hcs : ∀ b ∈ cs, NoNL b) (t : List Char) :
-    readRowImpl P 0 sep ⟨commentText cs ++ '\n' :: t, false, false⟩ = (.ok [], ⟨t, false, false⟩) := by
-  have hF : cs.length + 1 ≤ (commentText cs ++ '\n' :: t).length + 1 := by
-    have := commentText_length cs
-    simp only [List.length_append]; omega
-  obtain ⟨k', hk⟩ := comments_skipped ('\n' :: t) cs true _ hF hcs
-  have hr0 : ({} : Reader) = ⟨[], 0, true⟩ := rfl
-  have h1 : skipComments {} ⟨commentText cs ++ '\n' :: t, false, false⟩ =
-      (.ok (), ⟨[], 0, k'⟩, ⟨'\n' :: t, false, false⟩) := by
-    rw [skipComments_eq, hr0, hk, afterTest_empty]
-  simp [readRowImpl, h1, readFields, nextLine, nextLineThrowsEvalsGetc, nextLineThrows, IStream.get1,
-    IStream.good, endCh]
+    readRowImpl P 0 sep ⟨commentText cs ++ '\n' :: t, false, false⟩ = (.ok [], ⟨t, false, false⟩) ∧
+    readRowStdVector P sep ⟨commentText cs ++ '\n' :: t, false, false⟩ = (.ok [], ⟨t, false, false⟩) :=
+  ⟨readRowImplG_ok _ P _ sep _ _ _ (readRowCore_empty P sep cs hcs t),
+   readRowStdVectorG_ok _ P sep _ _ _ (readVecCore_emptyline P sep cs hcs ('\n' :: t) (Or.inr ⟨t, rfl⟩))⟩
 
 /-- … and a file that ends after its comment lines reads as an empty row (no error). -/
 theorem read_row_empty_eof {V : Type} (P : List Char → Option (V × Nat)) (sep : Char)
     (cs : List (List Char)) (hcs : ∀ b ∈ cs, NoNL b) :
-    (readRowImpl P 0 sep ⟨commentText cs, false, false⟩).1 = .ok [] := by
-  have hF : cs.length + 1 ≤ (commentText cs ++ []).length + 1 := by
-    have := commentText_length cs
-    simp only [List.length_append]; omega
-  obtain ⟨k', hk⟩ := comments_skipped [] cs true _ hF hcs
-  have hpos : ∃ f, (commentText cs ++ []).length + 1 - cs.length = f + 1 := by
-    have := commentText_length cs
-    exact ⟨(commentText cs ++ []).length - cs.length, by simp only [List.length_append] at *; omega⟩
-  obtain ⟨f, hf⟩ := hpos
-  have hr0 : ({} : Reader) = ⟨[], 0, true⟩ := rfl
-  have h1 : skipComments {} ⟨commentText cs, false, false⟩ = (.ok (), ⟨[], 0, k'⟩, ⟨[], true, false⟩) := by
-    have := skipComments_eq {} ⟨commentText cs ++ [], false, false⟩
-    rw [hr0, hk, hf, afterTest_eof] at this
-    show skipComments ⟨[], 0, true⟩ _ = _
-    simpa using this
-  simp [readRowImpl, h1, readFields, nextLine, nextLineThrowsEvalsGetc, nextLineThrows]
+    (readRowImpl P 0 sep ⟨commentText cs, false, false⟩).1 = .ok [] ∧
+    (readRowStdVector P sep ⟨commentText cs, false, false⟩).1 = .ok [] := by
+  constructor
+  · rw [readRowImpl, readRowImplG_ok _ P _ sep _ _ _ (readRowCore_empty_eof P sep cs hcs)]
+  · have := readVecCore_emptyline P sep cs hcs [] (Or.inl rfl)
+    simp only [List.append_nil] at this
+    rw [readRowStdVector, readRowStdVectorG_ok _ P sep _ _ _ this]
 
 /-! ### Printers' framing, and print-then-read -/
 
@@ -180,34 +207,18 @@ theorem print_then_read {V : Type} (P : List Char → Option (V × Nat)) (sep : 
   have := read_row_tokens P sep [] (by simp) tv ('\n' :: rest) (Or.inr ⟨rest, rfl⟩) hlen hok hNL c l hline hc
   simpa [commentText, afterLine] using this
 
-/-! ### Malformed rows are rejected; nothing past the end of the line is consumed -/
-
-/-- In every canonical state the unread stream ends with `tail` (newline + following lines, or EOF):
-    the reader has consumed nothing beyond the current line. -/
-theorem streamOf_within_line (L tail : List Char) : ∃ pre, (streamOf L tail).rest = pre ++ tail :=
-  ⟨L.drop 64, rfl⟩
+/-! ### Malformed input: the rejecting steps, from every chunk position -/
 
 /-- **Wrong separator / trailing garbage.**  A token (< window) that the oracle stops after, followed
     by a character that is not the separator, at any chunk position: `read` throws "unexpected
-    character"; the stream stays inside the line. -/
+    character". -/
 theorem wrong_separator_rejected {V : Type} (P : List Char → Option (V × Nat)) (sep c : Char)
     (L tail tok L' : List Char) (j : Nat) (v : V) (hj : j ≤ min 64 L.length) (hL : NoNL L) (ht : TailOK tail)
     (hd : L.drop j = tok ++ c :: L') (hc : c ≠ sep) (hlen : tok.length ≤ 63)
     (hparse : ∀ X, readSingle P (tok ++ c :: X) 0 (tok ++ c :: X).length = some (v, tok.length)) :
     Alpaqa.C17.read P (shifted L j) (streamOf L tail) sep =
-      (.error .sep, shifted (L.drop j) 0, streamOf (L.drop j) tail) := by
-  simp only [Alpaqa.C17.read, chunkPhase_shifted L tail j hj hL ht]
-  rw [hd]
-  have hW := take64_tok_sep tok L' c hlen
-  have hrs := hparse (L'.take (63 - tok.length))
-  have hlenW : min 64 (tok ++ c :: L').length = (tok ++ c :: L'.take (63 - tok.length)).length := by
-    rw [← hW, List.length_take]
-  have hne : tok.length ≠ (tok ++ c :: L'.take (63 - tok.length)).length := by simp
-  have hget : (tok ++ c :: L'.take (63 - tok.length)).getD tok.length ' ' = c := by
-    simp [List.getD_eq_getElem?_getD]
-  simp only [readParse, shifted, readBufend, readSingleBegin, Nat.zero_add, List.drop_zero, Nat.sub_zero, hW,
-    hlenW, hrs]
-  simp [readSepBad, hne, hget, hc]
+      (.error .sep, shifted (L.drop j) 0, streamOf (L.drop j) tail) :=
+  read_wrongsep P sep c L tail tok L' j v hj hL ht hd hc hlen hparse
 
 /-- **Empty field / non-numeric field / too few fields.**  Whenever the oracle rejects the window
     (`from_chars` error), at any chunk position, `read` throws "conversion failed". -/
@@ -215,91 +226,422 @@ theorem unparsable_rejected {V : Type} (P : List Char → Option (V × Nat)) (se
     (L tail : List Char) (j : Nat) (hj : j ≤ min 64 L.length) (hL : NoNL L) (ht : TailOK tail)
     (hparse : readSingle P ((L.drop j).take 64) 0 (min 64 (L.drop j).length) = none) :
     Alpaqa.C17.read P (shifted L j) (streamOf L tail) sep =
-      (.error .conv, shifted (L.drop j) 0, streamOf (L.drop j) tail) := by
-  simp only [Alpaqa.C17.read, chunkPhase_shifted L tail j hj hL ht]
-  have hparse' := hparse
-  simp only [List.length_drop] at hparse'
-  simp [readParse, shifted, readBufend, readSingleBegin, hparse']
-
-/-- too few fields: the line is exhausted and the oracle rejects the empty string -/
-theorem too_few_rejected {V : Type} (P : List Char → Option (V × Nat)) (sep : Char)
-    (L tail : List Char) (j : Nat) (hj : j ≤ min 64 L.length) (hL : NoNL L) (ht : TailOK tail)
-    (hd : L.drop j = []) (hP : P [] = none) :
-    Alpaqa.C17.read P (shifted L j) (streamOf L tail) sep =
-      (.error .conv, shifted (L.drop j) 0, streamOf (L.drop j) tail) := by
-  apply unparsable_rejected P sep L tail j hj hL ht
-  simp [hd, readSingle, singleSkipPlus, hP, singleFails]
-
-/-- **Too many fields.**  If anything of the line is unread when `next_line` is called (any chunk
-    position), it throws "line not fully consumed" and the stream stays inside the line. -/
-theorem too_many_rejected (L tail : List Char) (j : Nat) (hj : j ≤ min 64 L.length) (hL : NoNL L)
-    (hd : L.drop j ≠ []) :
-    ∃ is', nextLine (shifted L j) (streamOf L tail) = (.error .line, is') ∧ ∃ pre, is'.rest = pre ++ tail := by
-  have hlt : j < L.length := by
-    by_contra h; exact hd (List.drop_eq_nil_of_le (by omega))
-  by_cases hb : min 64 L.length - j > 0
-  · refine ⟨streamOf L tail, ?_, streamOf_within_line L tail⟩
-    simp [nextLine, shifted, nextLineThrowsEvalsGetc, nextLineThrows, hb]
-  · have h64 : 64 < L.length := by omega
-    have hj64 : j = 64 := by omega
-    have h1 : ¬ (L.length ≤ 64) := by omega
-    obtain ⟨c, r, hcr⟩ : ∃ c r, L.drop 64 = c :: r := by
-      cases hdd : L.drop 64 with
-      | nil => have := List.drop_eq_nil_iff.mp hdd; omega
-      | cons c r => exact ⟨c, r, rfl⟩
-    have hc : c ≠ '\n' := hL c (List.mem_of_mem_drop (by rw [hcr]; simp))
-    refine ⟨⟨r ++ tail, false, false⟩, ?_, ⟨r, rfl⟩⟩
-    have hb0 : min 64 L.length - j = 0 := by omega
-    simp [nextLine, shifted, streamOf, nextLineThrowsEvalsGetc, nextLineThrows, hb0, h1, hcr, IStream.get1,
-      IStream.good, endCh, hc]
-
-/-! ### Over-long token: rejected (repaired `read`: "number too long for buffer") -/
+      (.error .conv, shifted (L.drop j) 0, streamOf (L.drop j) tail) :=
+  read_unparsable P sep L tail j hj hL ht hparse
 
 /-- **Over-long token.**  At any chunk position, if the unread line starts with a token of more than
     64 characters (longer than the window) that does not contain the separator, `read` throws —
-    whatever the number oracle makes of the first 64 characters (`hbound`: it cannot consume more
-    than it was given): conversion error, unexpected character, or "number too long" when the number
-    fills the window and the line continues.  The stream stays inside the line
-    (`streamOf_within_line`); no number is returned. -/
-theorem overlong_token_rejected {V : Type} (P : List Char → Option (V × Nat)) (sep : Char)
+    whatever the number oracle makes of the first 64 characters: conversion error, unexpected
+    character, or "number too long" when the number fills the window and the line continues
+    (`overlongErr`, one of the three by `overlongErr_cases`). -/
+theorem overlong_token_rejected {V : Type} (P : List Char → Option (V × Nat)) (hP : PBound P) (sep : Char)
     (L tail tok rest : List Char) (j : Nat) (hj : j ≤ min 64 L.length) (hL : NoNL L) (ht : TailOK tail)
-    (hd : L.drop j = tok ++ rest) (hlong : 65 ≤ tok.length) (hsep : sep ∉ tok)
-    (hbound : ∀ v ptr, readSingle P (tok.take 64) 0 64 = some (v, ptr) → ptr ≤ 64) :
-    ∃ e, Alpaqa.C17.read P (shifted L j) (streamOf L tail) sep =
-      (.error e, shifted (L.drop j) 0, streamOf (L.drop j) tail) := by
-  simp only [Alpaqa.C17.read, chunkPhase_shifted L tail j hj hL ht]
-  have hW : (L.drop j).take 64 = tok.take 64 := by
-    rw [hd, List.take_append_of_le_length (by omega)]
-  have hlen : 64 < (L.drop j).length := by rw [hd, List.length_append]; omega
-  have hmin : min 64 (L.drop j).length = 64 := by omega
-  have hsh : shifted (L.drop j) 0 = ⟨tok.take 64, 64, true⟩ := by
-    simp only [shifted, List.drop_zero, Nat.sub_zero, hW, hmin]
-    have : 64 < L.length - j := by simpa using hlen
-    simp [this]
-  rw [hsh]
-  cases hrs : readSingle P (tok.take 64) 0 64 with
-  | none => exact ⟨.conv, by simp [readParse, readBufend, readSingleBegin, hrs]⟩
-  | some vp =>
-    obtain ⟨v, ptr⟩ := vp
-    have hb := hbound v ptr hrs
-    by_cases h64 : ptr = 64
-    · subst h64
-      exact ⟨.long, by simp [readParse, readBufend, readSingleBegin, hrs, readSepBad, readLong]⟩
-    · have hlt : ptr < (tok.take 64).length := by rw [List.length_take]; omega
-      have hne : (tok.take 64)[ptr]?.getD ' ' ≠ sep := by
-        rw [List.getElem?_eq_getElem hlt]
-        simp only [Option.getD_some]
-        intro h
-        exact hsep (h ▸ List.mem_of_mem_take (List.getElem_mem hlt))
-      exact ⟨.sep, by simp [readParse, readBufend, readSingleBegin, hrs, readSepBad, h64, hne]⟩
+    (hd : L.drop j = tok ++ rest) (hlong : 65 ≤ tok.length) (hsep : sep ∉ tok) :
+    Alpaqa.C17.read P (shifted L j) (streamOf L tail) sep =
+      (.error (overlongErr P tok), shifted (L.drop j) 0, streamOf (L.drop j) tail) ∧
+    (overlongErr P tok = .conv ∨ overlongErr P tok = .sep ∨ overlongErr P tok = .long) :=
+  ⟨read_overlong P sep L tail tok rest j hj hL ht hd hlong hsep
+    (fun v ptr h => readSingle_le P hP (tok.take 64) 64 (by rw [List.length_take]; omega) v ptr h),
+   overlongErr_cases P tok⟩
+
+/-- **`next_line` accepts exactly the fully read line**, from every canonical state: it succeeds
+    (newline consumed, stream at the start of the next line) iff nothing of the line is unread; otherwise
+    "line not fully consumed", with the stream still inside the line.  (`rem` is the unread text of
+    the line; after `1,2,` has been read as two fields of `1,2,\n`, `rem = []`: the separator
+    terminated the second field.) -/
+theorem next_line_exact (L tail : List Char) (hL : NoNL L) (ht : TailOK tail) (r : Reader) (is : IStream)
+    (rem : List Char) (hc : Canon L tail r is rem) :
+    (rem = [] ∧ nextLine r is = (.ok (), afterLine tail)) ∨
+    (rem ≠ [] ∧ ∃ is', nextLine r is = (.error .line, is') ∧ InLine L tail is') :=
+  nextLine_canon L tail hL ht r is rem hc
+
+/-- **Any text, one `read`**: from every canonical state, whatever the line contains, `read` either
+    returns a value and moves to a canonical state strictly further on in the same line, or throws one
+    of the three errors with the stream inside the line.  (The induction step of the frame theorems.) -/
+theorem read_any_text {V : Type} (P : List Char → Option (V × Nat)) (hP : PBound P) (sep : Char)
+    (L tail : List Char) (hL : NoNL L) (ht : TailOK tail) (r : Reader) (is : IStream) (rem : List Char)
+    (hc : Canon L tail r is rem) :
+    (∃ v r' is' rem', Alpaqa.C17.read P r is sep = (.ok v, r', is') ∧ Canon L tail r' is' rem' ∧
+        (rem ≠ [] → rem'.length < rem.length)) ∨
+    (∃ e r' is', (e = .conv ∨ e = .sep ∨ e = .long) ∧ Alpaqa.C17.read P r is sep = (.error e, r', is') ∧
+        InLine L tail is') :=
+  read_canon P hP sep L tail hL ht r is rem hc
+
+/-! ### Malformed rows are rejected by `read_row_impl` / `read_row_std_vector`
+
+  In all theorems of this section the row is `k = tv.length` well-formed fields, each followed by the
+  separator (any `k`, any lengths < window, hence any chunk position of what follows), then `R`; the
+  class of malformation is a condition on `R` (and on `n` for `read_row(n)`). -/
+
+section rows
+variable {V : Type} (P : List Char → Option (V × Nat)) (sep : Char)
+  {cs : List (List Char)} {L tail : List Char} (ctx : RowCtx cs L tail)
+  (tv : List (List Char × V)) (hlen : ∀ p ∈ tv, p.1.length ≤ 63) (hok : ∀ p ∈ tv, TokOK P sep p.1 p.2)
+  (R : List Char) (hline : L = fieldsText sep (tv.map (·.1)) ++ R)
+include ctx hlen hok hline
+
+/-- **Wrong separator / trailing garbage**: `R` starts with a token the oracle stops after, followed
+    by a character that is not the separator. -/
+theorem row_wrong_separator_rejected (tok R' : List Char) (c : Char) (v : V) (hR : R = tok ++ c :: R')
+    (hc : c ≠ sep) (htok : tok.length ≤ 63)
+    (hparse : ∀ X, readSingle P (tok ++ c :: X) 0 (tok ++ c :: X).length = some (v, tok.length))
+    (n : Nat) (hn : tv.length < n) :
+    (readRowImpl P n sep (rowStream cs L tail)).1 = .error .sep ∧
+    (readRowStdVector P sep (rowStream cs L tail)).1 = .error .sep := by
+  subst hR
+  have hread := canon_read_wrongsep P sep c L tail ctx.hL ctx.ht tok R' v hc htok hparse
+  obtain ⟨m, rfl⟩ : ∃ m, n = tv.length + (m + 1) := ⟨n - tv.length - 1, by omega⟩
+  obtain ⟨is1, h1⟩ := core_read_fails_row P sep ctx tv hlen hok _ hline .sep hread m
+  obtain ⟨is2, h2⟩ := core_read_fails_vec P sep ctx tv hlen hok _ hline .sep hread (by simp)
+  exact ⟨by rw [readRowImpl, readRowImplG_fst, h1], by rw [readRowStdVector, readRowStdVectorG_fst, h2]⟩
+
+/-- **Non-numeric / empty field**: the oracle rejects what the window shows of `R`
+    (`read_row_std_vector`: `R ≠ []`, an exhausted line simply ends the row). -/
+theorem row_unparsable_rejected (hparse : readSingle P (R.take 64) 0 (min 64 R.length) = none)
+    (n : Nat) (hn : tv.length < n) :
+    (readRowImpl P n sep (rowStream cs L tail)).1 = .error .conv ∧
+    (R ≠ [] → (readRowStdVector P sep (rowStream cs L tail)).1 = .error .conv) := by
+  have hread := canon_read_unparsable P sep L tail ctx.hL ctx.ht R hparse
+  obtain ⟨m, rfl⟩ : ∃ m, n = tv.length + (m + 1) := ⟨n - tv.length - 1, by omega⟩
+  obtain ⟨is1, h1⟩ := core_read_fails_row P sep ctx tv hlen hok _ hline .conv hread m
+  refine ⟨by rw [readRowImpl, readRowImplG_fst, h1], fun hR => ?_⟩
+  obtain ⟨is2, h2⟩ := core_read_fails_vec P sep ctx tv hlen hok _ hline .conv hread hR
+  rw [readRowStdVector, readRowStdVectorG_fst, h2]
+
+/-- **Empty field** at the front (`k = 0`: `,1,2`), in the middle (`1,,2`) or at the end (`1,2,,`):
+    `R` starts with the separator where a number is expected.  (`hsepP`: no number starts with the
+    separator; `sep ≠ '+'` because `read_single` skips one leading `+`.) -/
+theorem row_empty_field_rejected (R' : List Char) (hR : R = sep :: R') (hsepP : ∀ X, P (sep :: X) = none)
+    (hplus : sep ≠ '+') (n : Nat) (hn : tv.length < n) :
+    (readRowImpl P n sep (rowStream cs L tail)).1 = .error .conv ∧
+    (readRowStdVector P sep (rowStream cs L tail)).1 = .error .conv := by
+  have hparse : readSingle P (R.take 64) 0 (min 64 R.length) = none := by
+    subst hR
+    obtain ⟨k, hk⟩ : ∃ k, min 64 (sep :: R').length = k + 1 := ⟨min 63 R'.length, by simp; omega⟩
+    have hh : ((sep :: R').take 64).getD 0 ' ' = sep := by simp
+    have ht : ((sep :: R').take 64).take (k + 1) = sep :: ((sep :: R').take 64).tail.take k := by
+      simp
+    simp only [readSingle, hk, hh, singleSkipPlus, ht]
+    simp [hplus, hsepP, singleFails]
+  obtain ⟨h1, h2⟩ := row_unparsable_rejected P sep ctx tv hlen hok R hline hparse n hn
+  exact ⟨h1, h2 (by subst hR; simp)⟩
+
+/-- **Too few fields** (separator-terminated form, `1,2,` with `n ≥ 3`): the line is exhausted after
+    `k < n` fields. -/
+theorem row_too_few_rejected (hP0 : P [] = none) (hR : R = []) (n : Nat) (hn : tv.length < n) :
+    (readRowImpl P n sep (rowStream cs L tail)).1 = .error .conv := by
+  subst hR
+  exact (row_unparsable_rejected P sep ctx tv hlen hok [] hline
+    (by simp [readSingle, singleSkipPlus, hP0, singleFails]) n hn).1
+
+/-- **Too few fields** (last field not terminated, `1,2` with `n ≥ 3`): `R` is a last well-formed field
+    that ends the line, and more than `k + 1` fields are requested. -/
+theorem row_too_few_unterminated_rejected (hP0 : P [] = none) (v : V) (hRlen : R.length ≤ 64) (hRok : TokOK P sep R v)
+    (n : Nat) (hn : tv.length + 1 < n) :
+    (readRowImpl P n sep (rowStream cs L tail)).1 = .error .conv := by
+  obtain ⟨m, rfl⟩ : ∃ m, n = tv.length + (m + 2) := ⟨n - tv.length - 2, by omega⟩
+  obtain ⟨is1, h1⟩ := core_too_few_last P hP0 sep ctx tv hlen hok R hline v hRlen hRok m
+  rw [readRowImpl, readRowImplG_fst, h1]
+
+/-- **Too many fields**: anything of the line is left after the `n = k` requested fields (`n = 0`:
+    any non-empty line). -/
+theorem row_too_many_rejected (hR : R ≠ []) :
+    (readRowImpl P tv.length sep (rowStream cs L tail)).1 = .error .line := by
+  obtain ⟨is1, h1⟩ := core_too_many P sep ctx tv hlen hok R hline hR
+  rw [readRowImpl, readRowImplG_fst, h1]
+
+/-- **Over-long token**: `R` starts with more than 64 characters without a separator. -/
+theorem row_overlong_rejected (hP : PBound P) (tok rest : List Char) (hR : R = tok ++ rest)
+    (hlong : 65 ≤ tok.length) (hsep : sep ∉ tok) (n : Nat) (hn : tv.length < n) :
+    (readRowImpl P n sep (rowStream cs L tail)).1 = .error (overlongErr P tok) ∧
+    (readRowStdVector P sep (rowStream cs L tail)).1 = .error (overlongErr P tok) := by
+  subst hR
+  have hread := canon_read_overlong P hP sep L tail ctx.hL ctx.ht tok rest hlong hsep
+  obtain ⟨m, rfl⟩ : ∃ m, n = tv.length + (m + 1) := ⟨n - tv.length - 1, by omega⟩
+  obtain ⟨is1, h1⟩ := core_read_fails_row P sep ctx tv hlen hok _ hline _ hread m
+  obtain ⟨is2, h2⟩ := core_read_fails_vec P sep ctx tv hlen hok _ hline _ hread
+    (by intro h; have h0 : tok = [] := (List.append_eq_nil_iff.mp h).1; rw [h0] at hlong; simp at hlong)
+  exact ⟨by rw [readRowImpl, readRowImplG_fst, h1], by rw [readRowStdVector, readRowStdVectorG_fst, h2]⟩
+
+end rows
+/-! ### No partial consumption: a row call consumes exactly one line, or fails inside it
+
+  For *every* content `L` of the line — well-formed or malformed in any way — after any comment lines
+  and followed by anything.  `readRowImplG false` / `readRowStdVectorG false` are the row functions
+  without error handler (csv.tpp now, `rows_current`), `… true` with the handler
+  `catch (read_error &) { if (resync) reader.discard_line(is); throw; }` of the proposed fix. -/
+
+section frame
+variable {V : Type} (P : List Char → Option (V × Nat)) (hP : PBound P) (sep : Char)
+  (cs : List (List Char)) (hcs : ∀ b ∈ cs, NoNL b) (L tail : List Char) (hL : NoNL L) (hdata : DataLine L)
+  (ht : TailOK tail)
+include hP hcs hL hdata ht
+
+/-- **Without the handler** (what csv.tpp guarantees now): success ⇒ `n` values and the stream at the
+    start of the next line; error ⇒ a genuine `read_error` (never the model's recursion bound) and the
+    stream *somewhere inside the rejected line*: nothing after the line's end has been consumed, but
+    the next call does not start at the next row. -/
+theorem read_row_frame_plain (hP0 : P [] = none) (n : Nat) :
+    (∃ vs is', readRowImplG false P n sep (rowStream cs L tail) = (.ok vs, is') ∧ AtNext tail is' ∧
+        vs.length = n) ∨
+    (∃ e is', e ≠ .fuel ∧ readRowImplG false P n sep (rowStream cs L tail) = (.error e, is') ∧
+        InLine L tail is') := by
+  rcases readRowCore_frame P hP hP0 sep cs hcs L tail hL hdata ht n with ⟨vs, is', h, ha, hl⟩ | ⟨e, is', he, h, hi⟩
+  · exact Or.inl ⟨vs, is', readRowImplG_ok _ P n sep _ _ _ h, ha, hl⟩
+  · exact Or.inr ⟨e, is', he, by rw [rowStream, readRowImplG_err _ P n sep _ _ _ h]; simp [onRowError], hi⟩
+
+/-- **With the handler**: success as before; error ⇒ the stream is exactly at the start of the next
+    line with no error flag (`afterError tail`), whatever made the row malformed. -/
+theorem read_row_frame_resync (hP0 : P [] = none) (n : Nat) :
+    (∃ vs is', readRowImplG true P n sep (rowStream cs L tail) = (.ok vs, is') ∧ AtNext tail is' ∧
+        vs.length = n) ∨
+    (∃ e, e ≠ .fuel ∧ readRowImplG true P n sep (rowStream cs L tail) = (.error e, afterError tail)) := by
+  rcases readRowCore_frame P hP hP0 sep cs hcs L tail hL hdata ht n with ⟨vs, is', h, ha, hl⟩ | ⟨e, is', he, h, hi⟩
+  · exact Or.inl ⟨vs, is', readRowImplG_ok _ P n sep _ _ _ h, ha, hl⟩
+  · refine Or.inr ⟨e, he, ?_⟩
+    rw [rowStream, readRowImplG_err _ P n sep _ _ _ h]
+    simp [onRowError, discardLine_inLine L tail hL ht is' hi]
+
+theorem read_vector_frame_plain :
+    (∃ vs is', readRowStdVectorG false P sep (rowStream cs L tail) = (.ok vs, is') ∧ AtNext tail is') ∨
+    (∃ e is', e ≠ .fuel ∧ readRowStdVectorG false P sep (rowStream cs L tail) = (.error e, is') ∧
+        InLine L tail is') := by
+  rcases readVecCore_frame P hP sep cs hcs L tail hL hdata ht with ⟨vs, is', h, ha⟩ | ⟨e, is', he, h, hi⟩
+  · exact Or.inl ⟨vs, is', readRowStdVectorG_ok _ P sep _ _ _ h, ha⟩
+  · exact Or.inr ⟨e, is', he, by rw [rowStream, readRowStdVectorG_err _ P sep _ _ _ h]; simp [onRowError], hi⟩
+
+theorem read_vector_frame_resync :
+    (∃ vs is', readRowStdVectorG true P sep (rowStream cs L tail) = (.ok vs, is') ∧ AtNext tail is') ∨
+    (∃ e, e ≠ .fuel ∧ readRowStdVectorG true P sep (rowStream cs L tail) = (.error e, afterError tail)) := by
+  rcases readVecCore_frame P hP sep cs hcs L tail hL hdata ht with ⟨vs, is', h, ha⟩ | ⟨e, is', he, h, hi⟩
+  · exact Or.inl ⟨vs, is', readRowStdVectorG_ok _ P sep _ _ _ h, ha⟩
+  · refine Or.inr ⟨e, he, ?_⟩
+    rw [rowStream, readRowStdVectorG_err _ P sep _ _ _ h]
+    simp [onRowError, discardLine_inLine L tail hL ht is' hi]
+
+/-- **csv.tpp as it is now** (`rows_current`: no handler) -/
+theorem read_row_frame_current (hP0 : P [] = none) (n : Nat) :
+    (∃ vs is', readRowImpl P n sep (rowStream cs L tail) = (.ok vs, is') ∧ AtNext tail is' ∧ vs.length = n) ∨
+    (∃ e is', e ≠ .fuel ∧ readRowImpl P n sep (rowStream cs L tail) = (.error e, is') ∧ InLine L tail is') := by
+  have := read_row_frame_plain P hP sep cs hcs L tail hL hdata ht hP0 n
+  rwa [← rows_current.1] at this
+
+theorem read_vector_frame_current :
+    (∃ vs is', readRowStdVector P sep (rowStream cs L tail) = (.ok vs, is') ∧ AtNext tail is') ∨
+    (∃ e is', e ≠ .fuel ∧ readRowStdVector P sep (rowStream cs L tail) = (.error e, is') ∧
+        InLine L tail is') := by
+  have := read_vector_frame_plain P hP sep cs hcs L tail hL hdata ht
+  rwa [← rows_current.2] at this
+
+end frame
+
+/-- **stream = comments ++ row₁ ++ "\n" ++ rest, with the handler**: whatever `row₁` is, and whether the
+    call succeeds or throws, both row functions leave exactly `rest`, flags clear. -/
+theorem rows_leave_rest_resync {V : Type} (P : List Char → Option (V × Nat)) (hP : PBound P) (hP0 : P [] = none)
+    (sep : Char) (cs : List (List Char)) (hcs : ∀ b ∈ cs, NoNL b) (row rest : List Char) (hL : NoNL row)
+    (hdata : DataLine row) (n : Nat) :
+    (readRowImplG true P n sep (rowStream cs row ('\n' :: rest))).2 = ⟨rest, false, false⟩ ∧
+    (readRowStdVectorG true P sep (rowStream cs row ('\n' :: rest))).2 = ⟨rest, false, false⟩ := by
+  constructor
+  · rcases read_row_frame_resync P hP sep cs hcs row ('\n' :: rest) hL hdata (Or.inr ⟨rest, rfl⟩) hP0 n with
+      ⟨vs, is', h, ha, _⟩ | ⟨e, _, h⟩
+    · rw [h]; exact ha
+    · rw [h]; rfl
+  · rcases read_vector_frame_resync P hP sep cs hcs row ('\n' :: rest) hL hdata (Or.inr ⟨rest, rfl⟩) with
+      ⟨vs, is', h, ha⟩ | ⟨e, _, h⟩
+    · rw [h]; exact ha
+    · rw [h]; rfl
+
+/-- A stream that is already failed when the row function is entered is not touched by the handler
+    (`resync = !is.fail()`): same result as without it. -/
+theorem failed_stream_untouched {V : Type} (P : List Char → Option (V × Nat)) (n : Nat) (sep : Char)
+    (is : IStream) (hf : is.fail = true) :
+    readRowImplG true P n sep is = readRowImplG false P n sep is ∧
+    readRowStdVectorG true P sep is = readRowStdVectorG false P sep is := by
+  simp [readRowImplG, readRowStdVectorG, onRowError, hf]
+
+/-! ### Non-vacuity: the hypotheses are satisfiable, the conclusions are not trivially true -/
 
 /-- toy oracle with the `from_chars` contract on unsigned decimal integers -/
 def digitsP (l : List Char) : Option (Nat × Nat) :=
   let ds := l.takeWhile Char.isDigit
   if ds.isEmpty then none else some (ds.foldl (fun a c => a * 10 + (c.toNat - 48)) 0, ds.length)
 
-/-- the former silent split (DESIGN §7-B): a single 65-digit token is now an error for both readers,
-    and the stream is left inside that line (the next line `7` is untouched) -/
+theorem digitsP_bound : PBound digitsP := by
+  intro l v k h
+  unfold digitsP at h
+  by_cases he : (l.takeWhile Char.isDigit).isEmpty = true
+  · simp [he] at h
+  · simp only [he] at h
+    have hk : k = (l.takeWhile Char.isDigit).length := by
+      simp at h; exact h.2.symm
+    rw [hk]
+    exact (List.takeWhile_sublist _).length_le
+
+theorem digitsP_nil : digitsP [] = none := rfl
+
+theorem noNL_of_all (l : List Char) (h : l.all (· != '\n') = true) : NoNL l := by
+  intro c hc
+  have := List.all_eq_true.mp h c hc
+  simpa using this
+
+/-- the oracle contract holds for a concrete oracle and token -/
+example : TokOK digitsP ',' ['1', '2'] 12 := by
+  intro rest h
+  rcases h with rfl | ⟨t, rfl⟩ <;>
+    simp [readSingle, digitsP, singleSkipPlus, singleFails, Char.isDigit]
+
+theorem dataLine_cons (c : Char) (l : List Char) (hc : c ≠ '#') : DataLine (c :: l) := by
+  intro c' l' h
+  injection h with h1 _
+  exact h1 ▸ hc
+
+/-- concrete tokens for the examples: `12` and `7` in front of `,` -/
+theorem tok_12_7 : ∀ p ∈ [((['1', '2'] : List Char), 12), (['7'], 7)], TokOK digitsP ',' p.1 p.2 := by
+  intro p hp
+  simp at hp
+  rcases hp with rfl | rfl <;> intro rest h <;> rcases h with rfl | ⟨t, rfl⟩ <;>
+    simp [readSingle, digitsP, singleSkipPlus, singleFails, Char.isDigit]
+
+theorem tok_12 : ∀ p ∈ [((['1', '2'] : List Char), 12)], TokOK digitsP ',' p.1 p.2 :=
+  fun p hp => tok_12_7 p (by simp at hp ⊢; exact Or.inl hp)
+
+theorem len_12_7 : ∀ p ∈ [((['1', '2'] : List Char), 12), (['7'], 7)], p.1.length ≤ 63 := by
+  intro p hp; simp at hp; rcases hp with rfl | rfl <;> simp
+
+theorem len_12 : ∀ p ∈ [((['1', '2'] : List Char), 12)], p.1.length ≤ 63 :=
+  fun p hp => len_12_7 p (by simp at hp ⊢; exact Or.inl hp)
+
+theorem ctxOf (L : List Char) (t : List Char) (hL : L.all (· != '\n') = true) (c : Char) (l : List Char)
+    (h : L = c :: l) (hc : c ≠ '#') : RowCtx [['c']] L ('\n' :: t) :=
+  ⟨by intro b hb; simp at hb; subst hb; exact noNL_of_all _ (by decide), noNL_of_all L hL, Or.inr ⟨t, rfl⟩,
+   ⟨c, l, h, hc⟩⟩
+
+/-- `read_row_tokens` instantiated: two tokens, any continuation of the file -/
+example (t : List Char) :
+    readRowImpl digitsP 2 ',' ⟨['1', '2', ',', '7'] ++ '\n' :: t, false, false⟩ = (.ok [12, 7], ⟨t, false, false⟩) := by
+  have := read_row_tokens digitsP ',' [] (by simp) [(['1', '2'], 12), (['7'], 7)] ('\n' :: t) (Or.inr ⟨t, rfl⟩)
+    len_12_7 tok_12_7 (noNL_of_all _ (by decide)) '1' ['2', ',', '7'] rfl (by decide)
+  simpa [lineOf, afterLine, commentText] using this
+
+/-- `read_vector_tokens` instantiated (after a comment line `#c`) -/
+example (t : List Char) :
+    readRowStdVector digitsP ',' (rowStream [['c']] ['1', '2', ',', '7'] ('\n' :: t)) =
+      (.ok [12, 7], ⟨t, false, false⟩) :=
+  read_vector_tokens digitsP ',' [['c']] [(['1', '2'], 12), (['7'], 7)] ('\n' :: t)
+    (ctxOf _ t (by decide) '1' ['2', ',', '7'] rfl (by decide)) len_12_7 tok_12_7
+    (by intro p hp; simp at hp; rcases hp with rfl | rfl <;> simp)
+
+/-- `read_row_terminated` instantiated: `12,7,` is the row (12, 7) for both readers -/
+example (t : List Char) :
+    readRowImpl digitsP 2 ',' (rowStream [['c']] ['1', '2', ',', '7', ','] ('\n' :: t)) =
+      (.ok [12, 7], ⟨t, false, false⟩) ∧
+    readRowStdVector digitsP ',' (rowStream [['c']] ['1', '2', ',', '7', ','] ('\n' :: t)) =
+      (.ok [12, 7], ⟨t, false, false⟩) :=
+  read_row_terminated digitsP ',' [['c']] [(['1', '2'], 12), (['7'], 7)] ('\n' :: t)
+    (ctxOf _ t (by decide) '1' ['2', ',', '7', ','] rfl (by decide)) len_12_7 tok_12_7
+
+/-- wrong separator: `12,7;5` -/
+example (t : List Char) :
+    (readRowImpl digitsP 3 ',' (rowStream [['c']] ['1', '2', ',', '7', ';', '5'] ('\n' :: t))).1 = .error .sep ∧
+    (readRowStdVector digitsP ',' (rowStream [['c']] ['1', '2', ',', '7', ';', '5'] ('\n' :: t))).1 = .error .sep :=
+  row_wrong_separator_rejected digitsP ',' (ctxOf _ t (by decide) '1' ['2', ',', '7', ';', '5'] rfl (by decide))
+    [(['1', '2'], 12)] len_12 tok_12 ['7', ';', '5'] rfl ['7'] ['5'] ';' 7 rfl (by decide) (by simp)
+    (by intro X; simp [readSingle, digitsP, singleSkipPlus, singleFails, Char.isDigit]) 3 (by simp)
+
+/-- empty field in the middle (`12,,7`) and at the front (`,12`) -/
+example (t : List Char) :
+    (readRowImpl digitsP 3 ',' (rowStream [['c']] ['1', '2', ',', ',', '7'] ('\n' :: t))).1 = .error .conv ∧
+    (readRowStdVector digitsP ',' (rowStream [['c']] ['1', '2', ',', ',', '7'] ('\n' :: t))).1 = .error .conv :=
+  row_empty_field_rejected digitsP ',' (ctxOf _ t (by decide) '1' ['2', ',', ',', '7'] rfl (by decide))
+    [(['1', '2'], 12)] len_12 tok_12 [',', '7'] rfl ['7'] rfl
+    (by intro X; simp [digitsP, Char.isDigit]) (by decide) 3 (by simp)
+example (t : List Char) :
+    (readRowImpl digitsP 2 ',' (rowStream [['c']] [',', '1', '2'] ('\n' :: t))).1 = .error .conv ∧
+    (readRowStdVector digitsP ',' (rowStream [['c']] [',', '1', '2'] ('\n' :: t))).1 = .error .conv :=
+  row_empty_field_rejected digitsP ',' (ctxOf _ t (by decide) ',' ['1', '2'] rfl (by decide))
+    [] (by simp) (by simp) [',', '1', '2'] rfl ['1', '2'] rfl
+    (by intro X; simp [digitsP, Char.isDigit]) (by decide) 2 (by simp)
+
+/-- too few: `12,7,` and `12,7` with `n = 3` -/
+example (t : List Char) :
+    (readRowImpl digitsP 3 ',' (rowStream [['c']] ['1', '2', ',', '7', ','] ('\n' :: t))).1 = .error .conv :=
+  row_too_few_rejected digitsP ',' (ctxOf _ t (by decide) '1' ['2', ',', '7', ','] rfl (by decide))
+    [(['1', '2'], 12), (['7'], 7)] len_12_7 tok_12_7 [] rfl digitsP_nil rfl 3 (by simp)
+example (t : List Char) :
+    (readRowImpl digitsP 3 ',' (rowStream [['c']] ['1', '2', ',', '7'] ('\n' :: t))).1 = .error .conv :=
+  row_too_few_unterminated_rejected digitsP ',' (ctxOf _ t (by decide) '1' ['2', ',', '7'] rfl (by decide))
+    [(['1', '2'], 12)] len_12 tok_12 ['7'] rfl digitsP_nil 7 (by simp) (tok_12_7 (['7'], 7) (by simp)) 3 (by simp)
+
+/-- too many: `12,7,5` with `n = 2` -/
+example (t : List Char) :
+    (readRowImpl digitsP 2 ',' (rowStream [['c']] ['1', '2', ',', '7', ',', '5'] ('\n' :: t))).1 = .error .line :=
+  row_too_many_rejected digitsP ',' (ctxOf _ t (by decide) '1' ['2', ',', '7', ',', '5'] rfl (by decide))
+    [(['1', '2'], 12), (['7'], 7)] len_12_7 tok_12_7 ['5'] rfl (by simp)
+
+/-- over-long: `12,` then 65 digits -/
+example (t : List Char) :
+    (readRowImpl digitsP 2 ',' (rowStream [['c']] (['1', '2', ','] ++ List.replicate 65 '1') ('\n' :: t))).1 =
+      .error .long ∧
+    (readRowStdVector digitsP ',' (rowStream [['c']] (['1', '2', ','] ++ List.replicate 65 '1') ('\n' :: t))).1 =
+      .error .long := by
+  have hE : overlongErr digitsP (List.replicate 65 '1') = .long := by decide +kernel
+  have := row_overlong_rejected digitsP ','
+    (ctxOf (['1', '2', ','] ++ List.replicate 65 '1') t (by decide) '1' (['2', ','] ++ List.replicate 65 '1') rfl
+      (by decide))
+    [(['1', '2'], 12)] len_12 tok_12 (List.replicate 65 '1') rfl digitsP_bound (List.replicate 65 '1') [] (by simp)
+    (by simp) (by decide) 2 (by simp)
+  rwa [hE] at this
+
+/-- the frame theorems instantiated: a malformed line `1,x` after a comment, any continuation -/
+example (t : List Char) (n : Nat) :=
+  read_row_frame_resync digitsP digitsP_bound ',' [['c']]
+    (by intro b hb; simp at hb; subst hb; exact noNL_of_all _ (by decide)) ['1', ',', 'x'] ('\n' :: t)
+    (noNL_of_all _ (by decide)) (dataLine_cons _ _ (by decide)) (Or.inr ⟨t, rfl⟩) digitsP_nil n
+example (t : List Char) (n : Nat) :=
+  read_row_frame_current digitsP digitsP_bound ',' [['c']]
+    (by intro b hb; simp at hb; subst hb; exact noNL_of_all _ (by decide)) ['1', ',', 'x'] ('\n' :: t)
+    (noNL_of_all _ (by decide)) (dataLine_cons _ _ (by decide)) (Or.inr ⟨t, rfl⟩) digitsP_nil n
+example (t : List Char) :=
+  read_vector_frame_current digitsP digitsP_bound ',' [['c']]
+    (by intro b hb; simp at hb; subst hb; exact noNL_of_all _ (by decide)) ['1', ',', 'x'] ('\n' :: t)
+    (noNL_of_all _ (by decide)) (dataLine_cons _ _ (by decide)) (Or.inr ⟨t, rfl⟩)
+
+/-! #### The open finding `csv-error-leaves-stream-mid-line`, on the model of the present code -/
+
+/-- Without the handler the error branch of the frame theorems is really "inside the line": after the
+    65-digit token is rejected the stream holds the 65th digit and the rest; the *next* call returns
+    that digit as a row `[2]`, and only the call after that sees the real next row `7`. -/
+theorem finding_tail_read_as_next_row :
+    let s0 : IStream := ⟨List.replicate 64 '1' ++ ['2', '\n', '7', '\n'], false, false⟩
+    let r1 := readRowStdVectorG false digitsP ',' s0
+    let r2 := readRowStdVectorG false digitsP ',' r1.2
+    r1 = (.error .long, ⟨['2', '\n', '7', '\n'], false, false⟩) ∧ r2 = (.ok [2], ⟨['7', '\n'], false, false⟩) := by
+  decide +kernel
+
+/-- … a short rejected row leaves the stream on its newline: the next `read_row_std_vector` returns an
+    empty row, the next `read_row(1)` fails with "extraction failed" and sets failbit. -/
+theorem finding_short_row_next_call :
+    let s0 : IStream := ⟨['1', ',', 'x', '\n', '7', '\n'], false, false⟩
+    let r1 := readRowStdVectorG false digitsP ',' s0
+    r1 = (.error .conv, ⟨['\n', '7', '\n'], false, false⟩) ∧
+    readRowStdVectorG false digitsP ',' r1.2 = (.ok [], ⟨['7', '\n'], false, false⟩) ∧
+    readRowImplG false digitsP 1 ',' r1.2 = (.error .ext, ⟨['\n', '7', '\n'], false, true⟩) := by
+  decide +kernel
+
+/-- With the handler the same two streams: the error is the same, the next call reads the next row. -/
+theorem fixed_next_row_after_error :
+    let sA : IStream := ⟨List.replicate 64 '1' ++ ['2', '\n', '7', '\n'], false, false⟩
+    let sB : IStream := ⟨['1', ',', 'x', '\n', '7', '\n'], false, false⟩
+    let a1 := readRowStdVectorG true digitsP ',' sA
+    let b1 := readRowImplG true digitsP 2 ',' sB
+    a1 = (.error .long, ⟨['7', '\n'], false, false⟩) ∧
+    readRowStdVectorG true digitsP ',' a1.2 = (.ok [7], ⟨[], false, false⟩) ∧
+    b1 = (.error .conv, ⟨['7', '\n'], false, false⟩) ∧
+    readRowImplG true digitsP 1 ',' b1.2 = (.ok [7], ⟨[], false, false⟩) := by
+  decide +kernel
+
+/-- the functions the driver runs are the ones without handler (`rows_current`) -/
 example :
     readRowStdVector digitsP ',' ⟨List.replicate 64 '1' ++ ['2', '\n', '7'], false, false⟩ =
       (.error .long, ⟨['2', '\n', '7'], false, false⟩) := by
@@ -312,28 +654,6 @@ example :
     (readRowImpl digitsP 2 ',' ⟨['5', ','] ++ List.replicate 64 '1' ++ ['\n', '7'], false, false⟩) =
       (.ok [5, 1111111111111111111111111111111111111111111111111111111111111111], ⟨['7'], false, false⟩) := by
   decide +kernel
-
-/-! ### Non-vacuity: the hypotheses are satisfiable, the conclusions are not trivially true -/
-
-/-- the oracle contract holds for a concrete oracle and token -/
-example : TokOK digitsP ',' ['1', '2'] 12 := by
-  intro rest h
-  rcases h with rfl | ⟨t, rfl⟩ <;>
-    simp [readSingle, digitsP, singleSkipPlus, singleFails, Char.isDigit]
-
-/-- `read_row_tokens` instantiated: two tokens, any continuation of the file -/
-example (t : List Char) :
-    readRowImpl digitsP 2 ',' ⟨['1', '2', ',', '7'] ++ '\n' :: t, false, false⟩ = (.ok [12, 7], ⟨t, false, false⟩) := by
-  have hok : ∀ p ∈ [((['1', '2'] : List Char), 12), (['7'], 7)], TokOK digitsP ',' p.1 p.2 := by
-    intro p hp
-    simp at hp
-    rcases hp with rfl | rfl <;> intro rest h <;> rcases h with rfl | ⟨t, rfl⟩ <;>
-      simp [readSingle, digitsP, singleSkipPlus, singleFails, Char.isDigit]
-  have := read_row_tokens digitsP ',' [] (by simp) [(['1', '2'], 12), (['7'], 7)] ('\n' :: t) (Or.inr ⟨t, rfl⟩)
-    (by intro p hp; simp at hp; rcases hp with rfl | rfl <;> simp) hok
-    (by intro c hc; simp [lineOf] at hc; rcases hc with rfl | rfl | rfl | rfl <;> decide)
-    '1' ['2', ',', '7'] rfl (by decide)
-  simpa [lineOf, afterLine, commentText] using this
 
 /-- a 99-character row (50 one-digit fields): tokens and separators straddle the window boundary -/
 example :
